@@ -163,3 +163,31 @@ def accepted_forms(repo, verb, max_argc=8, arg="1"):
         if effect:
             ok.add(argc)
     return ok, problems
+
+
+def fold_freq_getter(repo, meth):
+    """Transceiver.get_rx_freq / get_tx_freq folded over their complete state space: the function reads the fixed
+    frequencies (opaque values), the frame number (opaque) and the hopping configuration, which is either None or an
+    object whose resolve() is recorded and answers an opaque (Rx, Tx) pair.  Helpers are evaluated from their own source.
+    -> {"fixed": (ret, calls), "hopping": (ret, calls)} or None when the body does not fold."""
+    ci, fd = repo.need_method("transceiver", "Transceiver", meth)
+    ps = params(fd)
+    if len(ps) != 2:
+        return None
+    out = {}
+    for state in ("fixed", "hopping"):
+        calls = []
+        env = {ps[1]: Opaque("FN"), "self._rx_freq": Opaque("self._rx_freq"), "self._tx_freq": Opaque("self._tx_freq"),
+               "self.fh": None if state == "fixed" else Opaque("self.fh")}
+        e = Ev(repo, ci.mod, env=env, self_cls=ci)
+
+        def res(a, calls=calls):
+            calls.append(tuple(a))
+            return (Opaque("RX@%r" % (tuple(a),)), Opaque("TX@%r" % (tuple(a),)))
+        e.hooks = {"self.fh.resolve": res}
+        try:
+            r = e.run_block(fd.body)
+        except (Unknown, Raised):
+            return None
+        out[state] = (r[1] if isinstance(r, tuple) else None, calls)
+    return out
